@@ -67,6 +67,35 @@ class Pred:
         return f'Pred({self.m})'
 
 
+TRUTH_STYLES = ('bool', 'list', 'tuple-of-zeros', 'int', 'str', 'none-or-object',
+                'numpy-bool', 'ragged-list', 'dict')
+
+
+def truthy(keep, style, i=0):
+    """A value whose Python truth value is `keep`, in various disguises (a
+    predicate may return any object, e.g. "the list of channels")."""
+    import numpy as _np
+    if style == 'bool':
+        return bool(keep)
+    if style == 'list':
+        return [1, 2] if keep else []
+    if style == 'tuple-of-zeros':
+        return (0, 0) if keep else ()
+    if style == 'int':
+        return 2 if keep else 0
+    if style == 'str':
+        return 'x' if keep else ''
+    if style == 'none-or-object':
+        return object() if keep else None
+    if style == 'numpy-bool':
+        return _np.bool_(keep)
+    if style == 'ragged-list':
+        return [0] * (1 + i % 3) if keep else []
+    if style == 'dict':
+        return {'a': 0} if keep else {}
+    raise ValueError(style)
+
+
 class GroupFn:
     """sid(x) % m as group id"""
 
